@@ -192,7 +192,7 @@ CHECKS = {
         level='exploration',
         technique='bounded product enumeration of boxes (rotation x centre x limits x seed), posterior configurations and hand-solved ROMC problems on the real classes with independently built test points and textbook density formulas as oracle, plus stateless DFS (vmc.explore) over every answer function of the objective-as-environment under the real line_search and RegionConstructor.build',
         text="Every box of the alphabet is built on the real class: all sampled points must be contained (geometrically and by contains), the density must be 1/prod(widths) at points placed just inside every face and 0 just outside or far away, including degenerate limits that must be widened. For line search every below/above/at-threshold answer function reachable within K <= 7 and rep_lim <= 7 is executed: the result is positive, every probe in [0, result) stayed below, and the result is a probed-below offset or the resolution fallback. The posterior's unnormalised density and sample weights are decided on dyadic grids that hit the cut-off and region faces exactly, for direct construction, the real estimate_regions pipeline and small real ROMC runs.",
-        note="Trusted: orthonormal rotation alphabet; documented widening rule; dyadic eta so offsets are exact; harness seeds the global generator used by ROMC.sample / fit_local_surrogate; local surrogates compared with a 1e-6 band around the cut-off; acceptance = solved and f_min < eps_filter. The eigenvector-axes clause follows the mechanism's docstring and the repo test. Not covered: parallelize=True, the BO surrogate path.",
+        note="Trusted: orthonormal rotation alphabet; documented widening rule; dyadic eta so offsets are exact; harness seeds the global generator used by ROMC.sample / fit_local_surrogate; local surrogates compared with a 1e-6 band around the cut-off; acceptance = solved and f_min < eps_filter. The eigenvector-axes clause (from the mechanism's docstring, not the statement) is off the verdict. Not covered: parallelize=True, the BO surrogate path.",
         design_ref='4 C19'),
     'C20': dict(
         level='model_checking',
